@@ -367,6 +367,29 @@ def bounded(ctx):
                     fname = ("as_P1_supercell", "to_translational_symmetry")[int(rng.integers(0, 2))] if not thorough else "as_P1_supercell"
                     run(group, c, fname, size, (number, choice, rep))
                 run(group, c, "as_P1", (1, 1, 1), (number, choice, rep))
+    # crystals with atoms on special positions (images merged, summed site occupation above one): density and contents still those of the distinct atoms in the cell
+    from chmpy.crystal import Crystal as _Cr, UnitCell as _UC, SpaceGroup as _SG, AsymmetricUnit as _AU
+    from chmpy import Element as _El
+    r_ = np.pi / 2
+    specials = [("calcite R-3c:H", _UC.from_lengths_and_angles([4.99, 4.99, 17.06], [r_, r_, 2 * np.pi / 3]), _SG(167, choice="H"), ["Ca", "C", "O"], [[0, 0, 0], [0, 0, 0.25], [0.257, 0, 0.25]]),
+                ("rock salt Fm-3m", _UC.cubic(5.64), _SG(225), ["Na", "Cl"], [[0, 0, 0], [0.5, 0.5, 0.5]]),
+                ("CO2 on the inversion centre of P-1", _UC.from_lengths_and_angles([5.1, 5.7, 6.3], [np.radians(84), np.radians(97), np.radians(105)]), _SG(2), ["C", "O"], [[0.5, 0.5, 0.5], [0.5, 0.62, 0.66]])]
+    for name_, cell_, sg_, els_, pos_ in specials:
+        try:
+            c = _Cr(cell_, sg_, _AU([_El[e_] for e_ in els_], np.array(pos_, dtype=float)))
+            c._c13_desc = {"crystal": name_, "sites": pos_, "elements": els_}
+        except Exception as e:  # noqa
+            fails["standard"].append({"input": {"crystal": name_}, "observed": {"exception": repr(e)[:200]}, "clause": "the crystal can be constructed", "key": "supercell_standard"})
+            continue
+        run("standard", c, "as_P1", (1, 1, 1), ("special", name_))
+        run("standard", c, "as_P1_supercell", (2, 1, 1), ("special", name_))
+        evals["standard"] += 1
+        with quiet():
+            want_ = sum(_El[int(x)].mass for x in c.unit_cell_atoms()["element"]) / abs(np.linalg.det(c.unit_cell.direct)) / 0.6022
+            got_ = c.density
+        if not np.isclose(got_, want_, rtol=1e-3) and len(fails["standard"]) < 3:
+            fails["standard"].append({"input": {"crystal": c._c13_desc}, "observed": {"density": float(got_), "mass of the distinct atoms in the cell / volume": float(want_)},
+                                      "clause": "density is the mass of the distinct atoms in the unit cell over the cell volume (an atom on a special position counts once)", "key": "supercell_standard"})
     # crystals whose cell is in a non-standard orientation because the trigonal setting was switched first
     for number in (148, 161) if not thorough else R_GROUPS:
         for src, tgt in (("H", "R"), ("R", "H")):
@@ -405,6 +428,25 @@ def bounded(ctx):
                                "clause": "trigonal switch: asymmetric unit keeps its Cartesian positions, expanded unit cells coincide atom by atom modulo the lattice (3 hexagonal-cell atoms "
                                          "per rhombohedral-cell atom), volume/count ratio 3, density unchanged, new cell is a basis of the same lattice, round trip restores cell and coordinates",
                                "key": "trigonal"})
+    # metric coincidences: the setting is what the space group says, not what the cell happens to look like -- a rhombohedral cell with alpha = 90 degrees exactly (it looks
+    # cubic) and the hexagonal cell of the same lattice (c/a = sqrt(3/2))
+    from chmpy.crystal import Crystal as _Cr, UnitCell as _UC, SpaceGroup as _SG, AsymmetricUnit as _AU
+    from chmpy import Element as _El
+    for number in (146, 148):
+        for src, tgt, cell_ in (("R", "H", _UC.from_lengths_and_angles([6.0, 6.0, 6.0], [np.pi / 2] * 3)),
+                                ("H", "R", _UC.from_lengths_and_angles([6.0 * np.sqrt(2.0), 6.0 * np.sqrt(2.0), 6.0 * np.sqrt(3.0)], [np.pi / 2, np.pi / 2, 2 * np.pi / 3]))):
+            te += 1
+            td.add((number, src, "alpha=90"))
+            try:
+                c = _Cr(cell_, _SG(number, choice=src), _AU([_El["C"], _El["O"]], np.array([[0.11, 0.23, 0.37], [0.19, 0.31, 0.42]])))
+                c._c13_desc = {"setting": f"{number}:{src}", "cell": "rhombohedral a = 6, alpha = 90 degrees" if src == "R" else "hexagonal a = 6 sqrt 2, c = 6 sqrt 3 (its rhombohedral cell has alpha = 90)",
+                               "sites": [[0.11, 0.23, 0.37], [0.19, 0.31, 0.42]]}
+                probs = check_trigonal(c, tgt)
+            except Exception as e:  # noqa
+                probs = [{"exception": repr(e)[:300]}]
+            if probs and len(tf) < 3:
+                tf.append({"input": {"crystal": getattr(c, "_c13_desc", None), "call": f"choose_trigonal_lattice('{tgt}')"}, "observed": probs[:3],
+                           "clause": "trigonal switch of a crystal whose rhombohedral cell has alpha = 90 degrees (the direction of the switch follows the space-group setting, not the cell shape)", "key": "trigonal"})
     for tgt in ("R",):
         te += 1
         td.add(("r3c_example", tgt))
